@@ -35,9 +35,9 @@ FLAVOURS = {
 # id -> description of the harness
 CHECKS = {}
 
-def part(src, flavour="rel", extra=(), omit=(), shards=NCPU, ldflags=(), special=None, cxxflags=(), name=None):
+def part(src, flavour="rel", extra=(), omit=(), shards=NCPU, ldflags=(), special=None, cxxflags=(), name=None, args=()):
     return dict(src=src, flavour=flavour, extra=list(extra), omit=list(omit), shards=shards, ldflags=list(ldflags),
-                special=special, cxxflags=list(cxxflags), name=name or os.path.basename(src).split(".")[0])
+                special=special, cxxflags=list(cxxflags), name=name or os.path.basename(src).split(".")[0], args=list(args))
 
 def reg(id, src=None, deadline=(240, 1200), parts=None, **kw):
     ps = parts if parts is not None else [part(src, **kw)]
@@ -49,7 +49,8 @@ reg("C02", parts=[part("checks/C02_bufdisc.cpp", shards=12), part("checks/C02_cp
 reg("C03", "checks/C03_rtsafe.cpp", extra=["engine/interpose_alloc.cpp"])
 reg("C04", "checks/C04_dispatch.cpp", flavour="asan")
 reg("C05", "checks/C05_match.cpp")
-reg("C06", "checks/C06_threadlink.cpp", special="tl_hook", omit=["src/cpp/thread-link.cpp"])
+reg("C06", parts=[part("checks/C06_threadlink.cpp", special="tl_hook", omit=["src/cpp/thread-link.cpp"], shards=1, args=["--part", "B"], name="B"),
+                  part("checks/C06_threadlink.cpp", special="tl_hook", omit=["src/cpp/thread-link.cpp"], shards=15, args=["--part", "A"], name="A")])
 reg("C07", "checks/C07_validate.cpp")
 reg("C08", "checks/C08_bundle.cpp")
 reg("C09", "checks/C09_walk.cpp", flavour="asan")
@@ -231,7 +232,7 @@ def run_shards(exes, ck, tier, jobs, deadline, outdir, replay=None):
         for k in range(n):
             i = "%d_%d" % (pi, k)
             out = os.path.join(outdir, "shard_%s.json" % i)
-            cmd = [exe, "--tier", tier, "--shard", "%d/%d" % (k, n), "--out", out, "--deadline", str(deadline)]
+            cmd = [exe, "--tier", tier, "--shard", "%d/%d" % (k, n), "--out", out, "--deadline", str(deadline)] + pt["args"]
             if replay is not None:
                 cmd += ["--replay", replay]
             log = open(os.path.join(outdir, "shard_%s.log" % i), "w")
